@@ -8,6 +8,7 @@ import (
 	"fmt"
 	"os"
 	"os/exec"
+	"runtime"
 	"strings"
 	"time"
 
@@ -114,6 +115,44 @@ func RunOne(cfg verifsim.Config, fs *simos.FS, inv Inv) (Out, *simos.FS, verifsi
 		s.Finish(p, &out)
 	})
 	return out, s.FS, vr
+}
+
+// RunOneRealFS runs a single linter process under the simulated scheduler but
+// on the real file system (cacheDir is a real directory): the race tiers use
+// it, because the simulated disk is ordinary harness memory shared by tasks
+// that the race detector must not see, while real file I/O carries exactly
+// the happens-before edges the program really has.
+func RunOneRealFS(cfg verifsim.Config, cacheDir string, inv Inv) (Out, verifsim.Result) {
+	var out Out
+	out.Exit = -1
+	var p verifsim.Proc
+	vr := verifsim.Run(cfg, func() {
+		p = verifsim.Spawn("lint", func() {
+			out.Exit = lintcmd.VerifLint(Analyzers(), lintcmd.VerifInvocation{Args: inv.Args, Dir: inv.Dir, CacheDir: cacheDir, Env: inv.Env, Salt: salt})
+		})
+		verifsim.Join(p)
+	})
+	// read results only after the run: the end of every task is ordered
+	// before Run's return
+	so, se := verifsim.ProcOutputAfterRun(p)
+	out.Stdout, out.Stderr = string(so), string(se)
+	return out, vr
+}
+
+// RunFree runs one linter invocation without any simulation: real goroutines,
+// real scheduler, real file system (free-running race tier).
+func RunFree(cacheDir string, inv Inv, procs int) Out {
+	var so, se bytes.Buffer
+	verifsim.CapturePassthrough(&so, &se)
+	defer verifsim.CapturePassthrough(nil, nil)
+	old := runtime.GOMAXPROCS(procs)
+	defer runtime.GOMAXPROCS(old)
+	verifsim.SetPassthroughProcs(procs)
+	defer verifsim.SetPassthroughProcs(0)
+	var out Out
+	out.Exit = lintcmd.VerifLint(Analyzers(), lintcmd.VerifInvocation{Args: inv.Args, Dir: inv.Dir, CacheDir: cacheDir, Env: inv.Env, Salt: salt})
+	out.Stdout, out.Stderr = so.String(), se.String()
+	return out
 }
 
 // RunReal runs the real binary (built without instrumentation from the same
